@@ -119,3 +119,59 @@ impl_verif_comments!(
     TypedefBlob, TypedefCharacteristic, TypedefMeasurement, TypedefStructure, Unit, UserRights,
     VarCharacteristic, VarCriterion, VariantCoding,
 );
+
+/// A2mlTypeSpec as a public mirror (hash maps as lists sorted by key)
+#[derive(Debug, Clone, PartialEq)]
+pub enum TypeSpecDump {
+    /// None, Char, Int, Long, Int64, UChar, UInt, ULong, UInt64, Float, Double
+    Leaf(&'static str),
+    Array(Box<TypeSpecDump>, usize),
+    Enum(Vec<(String, Option<i32>)>),
+    Struct(Vec<TypeSpecDump>),
+    Sequence(Box<TypeSpecDump>),
+    /// (is_union, [(tag, is_block, repeat, item)])
+    Tagged(bool, Vec<(String, bool, bool, TypeSpecDump)>),
+}
+
+fn dump_typespec(spec: &crate::a2ml::A2mlTypeSpec) -> TypeSpecDump {
+    use crate::a2ml::A2mlTypeSpec as T;
+    let tagged = |map: &std::collections::HashMap<String, crate::a2ml::A2mlTaggedTypeSpec>| {
+        let mut items: Vec<(String, bool, bool, TypeSpecDump)> = map
+            .iter()
+            .map(|(key, ts)| {
+                debug_assert_eq!(key, &ts.tag);
+                (key.clone(), ts.is_block, ts.repeat, dump_typespec(&ts.item))
+            })
+            .collect();
+        items.sort_by(|a, b| a.0.cmp(&b.0));
+        items
+    };
+    match spec {
+        T::None => TypeSpecDump::Leaf("None"),
+        T::Char => TypeSpecDump::Leaf("Char"),
+        T::Int => TypeSpecDump::Leaf("Int"),
+        T::Long => TypeSpecDump::Leaf("Long"),
+        T::Int64 => TypeSpecDump::Leaf("Int64"),
+        T::UChar => TypeSpecDump::Leaf("UChar"),
+        T::UInt => TypeSpecDump::Leaf("UInt"),
+        T::ULong => TypeSpecDump::Leaf("ULong"),
+        T::UInt64 => TypeSpecDump::Leaf("UInt64"),
+        T::Float => TypeSpecDump::Leaf("Float"),
+        T::Double => TypeSpecDump::Leaf("Double"),
+        T::Array(item, dim) => TypeSpecDump::Array(Box::new(dump_typespec(item)), *dim),
+        T::Enum(map) => {
+            let mut items: Vec<(String, Option<i32>)> = map.iter().map(|(k, v)| (k.clone(), *v)).collect();
+            items.sort();
+            TypeSpecDump::Enum(items)
+        }
+        T::Struct(items) => TypeSpecDump::Struct(items.iter().map(dump_typespec).collect()),
+        T::Sequence(item) => TypeSpecDump::Sequence(Box::new(dump_typespec(item))),
+        T::TaggedStruct(map) => TypeSpecDump::Tagged(false, tagged(map)),
+        T::TaggedUnion(map) => TypeSpecDump::Tagged(true, tagged(map)),
+    }
+}
+
+/// a2ml::parse_a2ml on a text: the IF_DATA type specification it yields and the text with includes merged
+pub fn parse_a2ml(name: &str, text: &str) -> Result<(TypeSpecDump, String), String> {
+    crate::a2ml::parse_a2ml(&Filename::from(name), text).map(|(spec, merged)| (dump_typespec(&spec), merged))
+}
